@@ -698,6 +698,29 @@ func c12r3(c *core.Ctx) {
 			continue
 		}
 		okv := ok && fieldOf(info, v) == f
+		// an entry-by-entry copy: a local filled in a range loop over the original's field
+		if ok && !okv {
+			if id, isId := ast.Unparen(v).(*ast.Ident); isId {
+				local := objOfIdent(info, id)
+				ast.Inspect(cd.Body, func(n ast.Node) bool {
+					rs, isRange := n.(*ast.RangeStmt)
+					if !isRange || fieldOf(info, rs.X) != f {
+						return true
+					}
+					ast.Inspect(rs.Body, func(k ast.Node) bool {
+						if as, isAs := k.(*ast.AssignStmt); isAs && len(as.Lhs) == 1 {
+							if ix, isIx := as.Lhs[0].(*ast.IndexExpr); isIx {
+								if lid, isLid := ast.Unparen(ix.X).(*ast.Ident); isLid && objOfIdent(info, lid) == local {
+									okv = true
+								}
+							}
+						}
+						return true
+					})
+					return true
+				})
+			}
+		}
 		c.Check(okv, "vm.VirtualMachine.Clone|field:"+n, posOf(p, cd),
 			"field "+n+" written by option "+optFields[f]+" must be copied from the original by Clone()"+ifs(ok && !okv, " (Clone sets it to "+exprStr(v)+")"))
 	}
